@@ -390,6 +390,23 @@ def run15(tier):
         if k < 40:
             dists.append(((1609 * (100 * k + 50)) // 100, '%d.5M' % k))
             dists.append(((1609 * (100 * k + 25)) // 100, '%d.25M' % k))
+    # every one-decimal road spelling N.dM / N.dK in range and the two-decimal ones of the shorter distances - the quantifier
+    # names them all (seed C15-i: four "well-known" mile spellings, 3.1M 6.2M 13.1M 26.2M, aliased to the 5K / 10K / HM / MAR rows)
+    for n in range(0, 249):
+        for d in range(0, 10):
+            q = 10 * n + d                       # tenths of a mile
+            if (1609 * q) // 10 >= 20:
+                dists.append(((1609 * q) // 10, '%d.%dM' % (n, d)))
+    for n in range(0, 31):
+        for d in range(0, 100):
+            q = 100 * n + d
+            if (1609 * q) // 100 >= 20 and d % 10:
+                dists.append(((1609 * q) // 100, '%d.%02dM' % (n, d)))
+    for n in range(0, 400):
+        for d in range(1, 10):
+            dm_ = 1000 * n + 100 * d
+            if dm_ >= 20:
+                dists.append((dm_, '%d.%dK' % (n, d)))
     # yards on the track ('440Y', '100y'): untabulated, so graded by distance - 0.9144 m each
     for n in list(range(25, 2000, 5)) + list(range(2000, 11000, 40)):
         dists.append(((9144 * n) // 10000, '%dY' % n))
